@@ -75,7 +75,7 @@ structure World where
   held : List Msg
   trace : Option (List TraceE)
   reply : Option Reply
-  purgeFirst : Bool      -- the worker of fixes/D34.patch: remove_stale_writer_samples before every mail
+  purgeFirst : Bool      -- obsolete (the purge before every mail is in /repo main); kept for the `# assume-fix D34` line
 deriving Repr
 
 def World.init : World :=
@@ -106,7 +106,10 @@ def rdSub (r : Rd) : Sub → Rd × List Ack
         (if c.sn > expected then { r1 with firstAvail := c.sn } else r1, [])
       else (r, [])
   | .gap start base =>
-    if start < base then ({ r with highestRecv := max r.highestRecv (base - 1) }, []) else (r, [])
+    -- irrelevant_change_range_set (writer_proxy.rs, repair dda8913 / D2): only a range contiguous with what was received
+    if start < base && decide (start ≤ r.availMax + 1) && decide (base - 1 > r.highestRecv) then
+      ({ r with highestRecv := base - 1 }, [])
+    else (r, [])
   | .hb first last count =>
     if r.lastHbCount < count then
       let r1 := { r with lastHbCount := count, lastAvail := last, firstAvail := first, ackCount := r.ackCount + 1 }
@@ -167,7 +170,8 @@ def World.absorb (w : World) (s : St) (o : Out) : World :=
 /-- one iteration of the worker loop at the current time: the mail, then the per-participant part -/
 def World.iterate (w : World) (mail : Option Mail) : World :=
   let w := { w with lastWake := w.now }
-  let w := if w.purgeFirst && mail.isSome then { w with wr := w.wr.map (fun s => removeStale s w.now) } else w
+  -- remove_stale_writer_samples before every mail (repair 5f97ba4 / D34)
+  let w := if mail.isSome then { w with wr := w.wr.map (fun s => removeStale s w.now) } else w
   let w := match mail with
     | some (.write k v ts) =>
       (match w.wr with
